@@ -440,7 +440,12 @@ def _simplify(expr: HplExpression) -> HplExpression:
     if isinstance(expr, HplBinaryOperator):
         return _simplify_binary_operator(expr)
     if expr.is_function_call:
-        return _simplify_function_call(expr)
+        try:
+            return _simplify_function_call(expr)
+        except (ValueError, OverflowError):
+            # constant argument outside the domain of the function,
+            # e.g., sqrt(-1) or int(INF): keep the call as it is
+            return expr
 
     if isinstance(expr, HplSet):
         values = [_simplify(v) for v in expr.values]
